@@ -130,6 +130,9 @@ class Scheduler(object):
         self.track_lock_order = False
         self.timers_fired = 0
         self.contended = 0
+        self._since_switch = 0
+        self.fair_quantum = 2500
+        self.fair_switches = 0
         self.point_hook = None  # optional callable(sched, vthread) at every point
 
     # ------------------------------------------------------------------ util
@@ -189,6 +192,7 @@ class Scheduler(object):
             self.main_sem.release()
 
     def _give(self, nxt):
+        self._since_switch = 0
         self._lru += 1
         nxt.last_run = self._lru
         self.cur = nxt
@@ -216,6 +220,17 @@ class Scheduler(object):
             self.point_hook(self, me)
         if self.steps > self.max_steps:
             self._end("steps")
+        # fairness: a thread that spins without ever blocking (e.g. wait() on
+        # an event that is already set) is descheduled after a quantum, as any
+        # real scheduler would do.
+        self._since_switch += 1
+        if self._since_switch > self.fair_quantum:
+            nxt = self._choose_enabled(exclude=me)
+            self._since_switch = 0
+            if nxt is not None:
+                self.fair_switches += 1
+                self._switch_to(nxt)
+                return
         if self.tpos >= len(self.tape):
             return
         if self.run_left is None:
